@@ -301,3 +301,87 @@ Definition run_children (p : children_prog) (recursive : bool) (fuel : nat) : ou
   | TBad => OutOfModel
   end.
 End Interp.
+
+(* ------------------------------------------------------------------ Process.parent()
+   A second tiny language for the shape of parent(): straight-line statements, two kinds of early return, one try.
+   Primitives: those of children() plus the lowest-PID expression and self.ppid(). *)
+Inductive pstmt :=
+| PCheck                                          (* self._raise_if_pid_reused() *)
+| PLowest (x : string)                            (* x = _LOWEST_PID if _LOWEST_PID is not None else pids()[0] *)
+| PIfReturnNone (c : cond)                        (* if c: return None *)
+| PPpid (x : string)                              (* x = self.ppid() *)
+| PIfNotNone (x : string) (th : list pstmt)       (* if x is not None: th   (x an integer local: never None) *)
+| PTry (body : list pstmt) (handlers : list exn)  (* try: body / except (handlers): pass *)
+| PNewProc (dst : string) (arg : ex)              (* dst = Process(arg) *)
+| PStartTimes (d1 d2 : string) (arg : string)     (* d1, d2 = self._start_times(arg) *)
+| PIfReturnProc (c : cond) (x : string).          (* if c: return x   (x a Process local) *)
+
+Record pprims := { q_base : prims; q_lowest : outcome Z; q_ppid : outcome Z }.
+
+Inductive pres := PGo (s : st) | PRetNone | PRetProc (pid start : Z) | PExc (e : exn) (s : st) | PBad.
+
+Section InterpParent.
+Variable qr : pprims.
+Let pr := q_base qr.
+
+Fixpoint pexec (p : pstmt) (s : st) : pres :=
+  let pseq := fix pseq (l : list pstmt) (s : st) : pres :=
+                match l with
+                | [] => PGo s
+                | x :: r => match pexec x s with PGo s' => pseq r s' | o => o end
+                end in
+  match p with
+  | PCheck => match p_check pr with Val _ => PGo s | Exc e => PExc e s | OutOfModel => PBad end
+  | PLowest x => match q_lowest qr with Val l => PGo (setv x l s) | Exc e => PExc e s | OutOfModel => PBad end
+  | PIfReturnNone c => match evalc pr c s with None => PBad | Some true => PRetNone | Some false => PGo s end
+  | PPpid x => match q_ppid qr with Val l => PGo (setv x l s) | Exc e => PExc e s | OutOfModel => PBad end
+  | PIfNotNone x th => match getv (s_env s) x with None => PBad | Some _ => pseq th s end
+  | PTry body hs =>
+      match pseq body s with
+      | PExc e s' => if existsb (exn_beq e) hs then PGo s' else PExc e s'
+      | o => o
+      end
+  | PNewProc d a =>
+      match eval pr a s with
+      | None => PBad
+      | Some q => match p_new pr q with
+                  | Val c => PGo (w_pst (fun e => (d, c) :: e) (setv d q s))
+                  | Exc e => PExc e s
+                  | OutOfModel => PBad
+                  end
+      end
+  | PStartTimes d1 d2 x =>
+      match getv (s_pst s) x with
+      | None => PBad
+      | Some c => match p_start pr with
+                  | Val m => PGo (setv d2 c (setv d1 m s))
+                  | Exc e => PExc e s
+                  | OutOfModel => PBad
+                  end
+      end
+  | PIfReturnProc c x =>
+      match evalc pr c s with
+      | None => PBad
+      | Some false => PGo s
+      | Some true => match getv (s_env s) x, getv (s_pst s) x with
+                     | Some q, Some c => PRetProc q c
+                     | _, _ => PBad
+                     end
+      end
+  end.
+
+Fixpoint pseq (l : list pstmt) (s : st) : pres :=
+  match l with
+  | [] => PGo s
+  | x :: r => match pexec x s with PGo s' => pseq r s' | o => o end
+  end.
+
+(* parent(): Some (pid, start) of the returned object, or None (also when the body falls off its end) *)
+Definition run_parent (body : list pstmt) : outcome (option (Z * Z)) :=
+  match pseq body st0 with
+  | PGo _ | PRetNone => Val None
+  | PRetProc q c => Val (Some (q, c))
+  | PExc e _ => Exc e
+  | PBad => OutOfModel
+  end.
+End InterpParent.
